@@ -15,7 +15,10 @@ Record Inv1 (s : st) : Prop := {
   i_wk : wk s = guard_on (kp s);
   i_nonest : kp s <> KNest /\ nested s = false;
   i_pre : match up s with UTo | UYc | UYield => kp s = KIdle | _ => True end;
-  i_cdis : cdis s = wkloop (up s)
+  i_cdis : cdis s = wkloop (up s);
+  (* control points of the pre-F31 order are never entered; no kernel half of an earlier Blocker can still
+     register with the Cancel: the ghosts [oldk] and [tainted] stay at their initial values *)
+  i_dead : (kp s <> KSetco /\ kp s <> KC1 /\ kp s <> KC2 /\ kp s <> KC3s) /\ oldk s = 0%nat /\ tainted s = false
 }.
 
 Lemma inv1_init : Inv1 init.
@@ -114,6 +117,9 @@ Ltac absurd_hyp :=
       | H : false = true |- _ => discriminate H
       | H : true = false |- _ => discriminate H
       | H : _ && false = true |- _ => rewrite andb_false_r in H; discriminate H
+      | H : ?k <> ?k |- _ => exfalso; apply H; reflexivity
+      | H : S _ = 0%nat |- _ => discriminate H
+      | H : 0%nat = S _ |- _ => discriminate H
       end.
 Ltac holder_fact :=
   try match goal with E : un ?s ?i = NHold, Hh : forall i, un ?s i = NHold -> _ |- _ => pose proof (Hh i E) end;
@@ -124,7 +130,7 @@ Ltac pre Ipl :=
 
 Lemma inv1_step s a s' : Inv1 s -> stepF s a = Some s' -> Inv1 s'.
 Proof.
-  intros [Ipl Ihun Ihcn Ihtm Irun Isusp Iwk [Inn Ine] Ipre Icd] H.
+  intros [Ipl Ihun Ihcn Ihtm Irun Isusp Iwk [Inn Ine] Ipre Icd ((Id1 & Id2 & Id3 & Id4) & Iok & Itn)] H.
   destruct a.
   all: step_inv H.
   all: pre Ipl.
